@@ -108,7 +108,8 @@ _m("C18",
 
 _m("C15",
    "(a) Filesystem-effect inventory against a dependency model table (any call into std::fs / tokio::fs / async_std::fs / "
-   "tempfile / reflink_copy / memmap2 / walkdir / libc that is not modelled is itself a violation): every mutating effect's "
+   "tempfile / reflink_copy / memmap2 / walkdir / libc that is not modelled is itself a violation, and so is a modelled mutating "
+   "function handed over by name — `spawn_blocking(NamedTempFile::new)` — whose arguments the call site does not show): every mutating effect's "
    "path or handle, expanded interprocedurally through all call sites and struct-field construction sites up to the parameters "
    "of the public entry points, has one of the allowed shapes (cache/tmp, TempIn(cache/tmp), Content(cache,_) and its parent, "
    "Bucket(cache,_) and its parent/handle, Child(cache), or the destination explicitly given to an extraction call — for any effect kind, a hand-written copy included — / the "
@@ -137,7 +138,7 @@ _m("C03",
    "it, or an append-only bucket. (f) A staging file that is pre-allocated to the declared size is either mapped — and then trimmed to the bytes "
    "actually written before publication — or given back (set_len(0)) when the mapping fails: plain writes never go into a "
    "pre-sized file, so no data+padding file can be published. The trimming function itself skips set_len only on the 'written length is not below the mapped length' "
-   "edge. With link_to, the linkers' digest-exactness and existing-destination clauses (C19 b, d) are re-checked. (f3) The staged file is the sequence of accepted writes: no Seek on the staging "
+   "edge, and cuts the file to that written length (not to the mapping's own length, a no-op). With link_to, the linkers' digest-exactness and existing-destination clauses (C19 b, d) are re-checked. (f3) The staged file is the sequence of accepted writes: no Seek on the staging "
    "file, no function receives `&mut Option<MmapMut>`, nothing take()s or replaces the mapping in place. (g) What is published matches its address: the digest/sink agreement and the address clause of C02 (a, d) are "
    "re-checked here — the digest is fed exactly the bytes the staging file accepted, and the rename target is content_path(cache, "
    "that digest). (e) close() reports success only if persist returned Ok or an existence probe of the same "
@@ -158,7 +159,7 @@ _m("C09",
    "switch) and, on the remove_fully==true edge, no success return is reachable without passing the bucket removal (nor, except on the "
    "lookup's None arm, the content removal); clear = RemoveDirAll(Child(read_dir(cache))) inside a loop whose only non-error exit is "
    "the iterator's end and in which no iteration goes round without removing its child; a key removal reports success only after "
-   "appending its tombstone / unlinking the bucket, and the function that unlinks a content file has no success return that bypasses "
+   "appending its *whole* tombstone record (all-or-error append) / unlinking the bucket — a bucket file standing for one whole SHA-1 of the key (last path segment = the open-ended rest of the hex digest), so that unlinking it touches no other key —, and the function that unlinks a content file has no success return that bypasses "
    "the unlink. "
    "The key / integrity selecting the bucket / content address is the entry point's own parameter travelling by identity. "
    "(e) The appended tombstone makes the key not found for reads, metadata and listing: the lookup clauses of C05 b (last record "
@@ -219,7 +220,8 @@ _m("C13",
    "success return is reachable without flush().await on the same handle (the runtimes queue the write; only flush reports its "
    "failure). (R6) No future of a runtime filesystem function is created and dropped without being awaited. (R7) A failed publication "
    "step is tolerated only under an existence check of the same destination that follows links (C03 e, C19 d). (R8) Only the "
-   "removal API can reach a deletion of a content file: no write / commit / read path 'cleans up' shared content after a failure. (R2) No "
+   "removal API can reach a deletion of a content file: no write / commit / read path 'cleans up' shared content after a failure. (R9) The "
+   "index record is appended with all-or-error writes: a short write is a failure of the operation, never a success. (R2) No "
    "unwrap/expect directly on the result of a fallible filesystem call unless the same result was checked before. (R3) No "
    "flatten / filter_map(Result::ok) / map_while(Result::ok) over an iterator of io::Result (ReadDir, Lines, walkdir).",
    "Which errno each call can produce, hangs, retry behaviour, 'the same call succeeds once the fault is gone', and the state of "
@@ -235,7 +237,8 @@ _m("C05",
    "paths, labelled by the switches on `entry.key == key`, on the record's integrity and on its parse) equals the oracle: key "
    "differs → keep; key equal ∧ tombstone → clear; key equal ∧ parses → replace by *this* record (every Metadata field from the "
    "same-named record field); key equal ∧ unparsable → keep. (a2) Every successful keyed commit appends its record (no success return on the key-is-Some edge without "
-   "the insert call). (a3) A commit that fails has indexed nothing: after the insertion call no failure return is reachable except the one "
+   "the insert call). (a4) An insertion appends its record with all-or-error writes only (a plain `write` may accept a prefix and report success: the operation "
+   "would succeed while lookups keep returning the older state). (a3) A commit that fails has indexed nothing: after the insertion call no failure return is reachable except the one "
    "handing back the insertion's own error (a check placed after the append would reject the write and leave its record as the most recent one). "
    "The lookup may equally be written as filter(key) → filter_map(record state) → last() → flatten(), or as a scan from the newest "
    "record that returns at the first deciding one; both are judged against the same oracle table. (b0) The readers the lookups fold over take every valid record in file order (C06 re-checked). (c) 'Absent after removal': the removal clauses of C09 are re-checked — key removals "
@@ -285,7 +288,8 @@ _m("C11",
    "of each INDEX_INSERT has key ← the key parameter unchanged, integrity ← opts.sri.map(to_string), time ← "
    "opts.time.unwrap_or_else(NOW), size ← opts.size (else 0), metadata ← opts.metadata (else JSON null), raw_metadata ← "
    "opts.raw_metadata, and that aggregate is what is serialised. Commit side: at every COMMIT's insert call the size is "
-   "definitely Some — declared, or assigned from the writer's own byte counter (gate-cut reachability). Read side: every "
+   "definitely Some — declared, or assigned from the writer's own byte counter (gate-cut reachability), and that counter is "
+   "`+= the amount the inner writer accepted` in the keyed writers' write / poll_write (C02 c re-checked). Read side: every "
    "index::Metadata aggregate in the crate takes each field from the same-named field of the validated record and its integrity "
    "from the parse of the record's string. Builder side: each WriteOpts setter stores Some(argument) in its own field and "
    "returns self, and nothing else writes time / metadata / raw_metadata (every program-wide source of those fields is the setter, "
@@ -321,7 +325,7 @@ _m("C02",
    "Structural clauses of the write path, in every configuration — the round-trip equality itself needs execution. (a) Digest/"
    "sink agreement: in every writer body, each IntegrityOpts::input is fed exactly what the sink accepted — for a write()-like "
    "sink the slice X[..n] with n the Ok payload of that write of X; for an all-or-error sink (mapped write helper, proved to "
-   "return Ok(buf.len()) only after copying the whole buf) the whole X and only on the sink's Ok edge — and no sink write goes "
+   "return Ok(buf.len()) only after copying the whole buf into [pos .. pos + len(buf)) and to set its position to that same end) the whole X and only on the sink's Ok edge — and no sink write goes "
    "undigested; an all-or-error loop (write_all, write_fmt) over the staging file *or over a crate type whose own write() writes "
    "the staging file* (a tee, a counting wrapper) is not resumable — a failure part-way leaves accepted bytes behind although "
    "the caller is told nothing was taken — and is reported. (b) The async staging buffer equals the caller's chunk when the blocking closure is created (set_len(buf.len()) "
